@@ -578,6 +578,8 @@ def enum_ops(spec: gen.Spec, groups=("add", "shortcut", "addnode", "addtree", "m
             yield ("update_meta", i, (("k", 2), ("j", 3)), False)
             yield ("update_meta", i, (), True)
             yield ("update_meta", i, (("j", 3),), True)
+            yield ("update_meta", i, (("k", None),), False)  # None is a value here (dict.update), unlike set_meta(k, None)
+            yield ("update_meta", i, (("k", None), ("j", 0), ("", False)), True)
 
 
 def needs_other(op) -> bool:
